@@ -215,4 +215,31 @@ PROPS = {
         "assumptions": ["edit API names _replace/_insert/_delete/_move/_wrap", "cursor navigation preserves the epoch"],
         "design_ref": "DESIGN.md §3.12, §4 C06",
     },
+    "C01": {
+        "rules": ["GUARD", "ZIPLEN", "NAMECONF", "FIELDS", "VERDICT", "VERDICTUSE", "LAYER", "EXH", "TRAV@C01", "TRAVBASE", "BYPASS"],
+        "thorough": [],
+        "technique": "static analysis: per-primitive obligation table decided by a must-analysis (dominance of side conditions over tree edits, with raising guards, flag assumptions and check-argument provenance), plus comparison/identity/verdict/layering/traversal rules",
+        "level_text": "Structural clauses, decided for all programs and schedules from the source: every scheduling primitive reaches its tree edits only through the side conditions "
+        "its meaning requires (49 exported primitives + replace; audited table, Appendix A) and runs its post-conditions after the edit; loop-header fields (lo and hi) are both consulted where a loop is "
+        "removed or re-shaped; structural comparison used as a guard is exact; identity is not decided by printed names except at triaged sites; solver verdicts are read with the right polarity and "
+        "always acted upon; only the rewrite layer edits trees and only the API layer calls rewrites, so library schedules are compositions of guarded primitives; effect extraction and the copy/substitution "
+        "templates are exhaustive and traverse completely. Does not decide that the SMT conditions themselves imply equivalence, nor the arithmetic of each rewrite.",
+        "level_note": "Trusted: the audited obligation table in rules/guard.py (what each primitive needs); names of Check_* functions. Obligations discharged inside loops/callbacks are checked for existence only ('has').",
+        "explanation": "GUARD: facts call:/guard:/chk:<Check>:<fields>:<ops> collected on all paths to each edit site (and after the last edit); ZIPLEN/CMPFIELDS on LoopIR_Compare; NAMECONF triage; VERDICT on SMTSolver; VERDICTUSE on every verify() site; LAYER who-may-call; EXH/TRAV/BYPASS.",
+        "assumptions": ["obligation table", "edit API names"],
+        "design_ref": "DESIGN.md §3.3-3.8, §4 C01, Appendix A",
+    },
+    "C04": {
+        "rules": ["GUARD", "BINDERS", "FWDTHREAD", "TRAV@C04", "TRAVBASE"],
+        "thorough": [],
+        "technique": "static analysis: post-edit Check_Bounds/Check_Aliasing obligations and scope guards from the primitive table (must-analysis), binder-coverage of scope-environment builders, renaming of duplicated code",
+        "level_text": "Structural clauses: every shape-changing rewrite (expand/resize/fold/stage) passes its result to Check_Bounds after the last edit; primitives that introduce a call or rewrite "
+        "its arguments re-run Check_Aliasing; allocation-scope guards of fission/specialize/sink/lift dominate their edits; code that is duplicated into a scope where its binders are already "
+        "visible goes through Alpha_Rename; scope-environment builders handle every binder kind of the ADT; no rewrite edits a stale tree (FWDTHREAD), so no edit is silently dropped. "
+        "Does not decide that Check_Bounds' location sets are right.",
+        "level_note": "Trusted: obligation table; ADT text.",
+        "explanation": "GUARD rows tagged C04 (post Check_Bounds / Check_Aliasing, alloc_check, are_allocs_used_after_block, Alpha_Rename); BINDERS table (extract_env known D19); FWDTHREAD; TRAV on Alpha_Rename/SubstArgs/FreeVars.",
+        "assumptions": [],
+        "design_ref": "DESIGN.md §3.3, §3.11, §4 C04",
+    },
 }
